@@ -64,8 +64,12 @@ fn replay(rep: &mut Report, cases: &[Case], rj: &Value) {
         rep.machinery_error = Some(format!("replay: case '{label}' is not in this tier's case list (try --tier thorough)"));
         return;
     };
+    vcommon::watchdog::enter(label, &choices);
     let (o1, t1) = with_prefix(&choices, || (case.exec)(true));
+    vcommon::watchdog::leave();
+    vcommon::watchdog::enter(label, &choices);
     let (o2, t2) = with_prefix(&choices, || (case.exec)(true));
+    vcommon::watchdog::leave();
     let same = o1.outcome == o2.outcome && o1.fingerprints == o2.fingerprints && t1.len() == t2.len() && o1.violations == o2.violations;
     if !same {
         rep.machinery_error = Some("replay: two runs of the same schedule differ (nondeterminism not owned)".into());
